@@ -40,7 +40,7 @@ package iobroker
 
 //@ func Broker.connect(b, ctx, sl, addr, cancelUs, cancelOther, dir, key, proxy)
 //@   locals b ctx sl addr cancelUs cancelOther dir key proxy dirT cctx cancel ct msg err f
-//@   props C01 C04 C06 C11
+//@   props C01 C04 C06 C11 C12
 //@   ghost me int
 //@   ghost phase int = 0
 //@   ghost key0 string = ""
